@@ -624,6 +624,7 @@ impl<T> OptionParser<T> {
     /// `check_invariants` indicates problems with panic
     pub fn check_invariants(&self, _cosmetic: bool) {
         self.inner.meta().positional_invariant_check(true);
+        self.inner.meta().adjacent_invariant_check();
     }
 
     /// Customize parser for `--help`
